@@ -4,6 +4,8 @@ CONSTANTS
   StringSlotLax = FALSE
   RangeCheck = TRUE
   AnyCimIntAsIs = FALSE
+  ArrayHeadShortcut = FALSE
   Deltas <- DeltasBig
 INVARIANT ImplWithinReq
+INVARIANT ArrImplWithinReq
 CHECK_DEADLOCK FALSE
